@@ -456,6 +456,7 @@ func classifyB(c CaseB) core.Class {
 	if !c.Cfg.SMB {
 		cl.Labels = append(cl.Labels, hostLabels(c.Cfg.HTTP.Hosts)...)
 	}
+	cl.Labels = append(cl.Labels, scaleLabels(c.Cfg)...)
 	cl.NonTrivial = nonDefaults(c.Cfg.Opts) >= 2 || (onCmd && class != "plain" && class != "empty")
 	cl.Fingerprint = fmt.Sprintf("%s|%s|%v|%s", formatName(c.Format), class, onCmd, enc)
 	return cl
